@@ -1,4 +1,5 @@
 use std::collections::{HashMap, hash_map};
+use std::mem::ManuallyDrop;
 use std::ops::Deref;
 use std::sync::{Arc, RwLock};
 use std::thread::{self, ThreadId};
@@ -170,7 +171,7 @@ where
         let inner = self.family.current_thread_instance();
 
         RefSync {
-            inner,
+            inner: ManuallyDrop::new(inner),
             origin: thread::current().id(),
             family: self.family.clone(),
         }
@@ -201,7 +202,9 @@ where
 {
     // We really are just a wrapper around an Arc<T>. The only other duty we have
     // is to clean up the thread-local instance when the last `RefSync` is dropped.
-    inner: Arc<T>,
+    //
+    // `ManuallyDrop` because our reference must be given up under the family's lock (see `Drop`).
+    inner: ManuallyDrop<Arc<T>>,
 
     // The thread whose instance of `T` we reference. We stay aligned to this thread
     // no matter which thread we are moved to, cloned on or dropped on.
@@ -229,7 +232,7 @@ where
     #[inline]
     fn clone(&self) -> Self {
         Self {
-            inner: Arc::clone(&self.inner),
+            inner: ManuallyDrop::new(Arc::clone(&self.inner)),
             origin: self.origin,
             family: self.family.clone(),
         }
@@ -241,16 +244,20 @@ where
     T: linked::Object + Send + Sync,
 {
     fn drop(&mut self) {
+        // SAFETY: `inner` is never touched again - this is `drop()` and nothing below uses it.
+        let inner = unsafe { ManuallyDrop::take(&mut self.inner) };
+
         // If we are the last RefSync aligned to our origin thread then we need to drop the
         // thread-specific state of that thread (which need not be the thread we are dropped on).
-        self.family
-            .clear_thread_instance_if_last_ref(self.origin, &self.inner);
+        // Our own reference is given up as part of the same locked step: if several `RefSync`
+        // aligned to one thread are dropped concurrently, each must see the others' references
+        // already gone or still counted, never "checked but not yet released".
+        self.family.release_thread_instance_ref(self.origin, inner);
 
         #[cfg(folo_verif)]
         crate::__verif::point("ref_sync/drop/after-last-ref-check");
 
-        // If so, `self.inner` is now the last reference to the origin thread's instance of T
-        // and this instance will be dropped once this function returns and drops the last `Arc<T>`.
+        // If we were the last one, the origin thread's instance of T has been dropped by now.
     }
 }
 
@@ -327,21 +334,31 @@ where
         }
     }
 
-    /// Removes the thread-specific state of `thread_id` if `instance` (the reference held by the
-    /// `RefSync` being dropped) is the last one besides the one in the thread-specific state.
-    fn clear_thread_instance_if_last_ref(&self, thread_id: ThreadId, instance: &Arc<T>) {
-        // A `RefSync` may be dropped on any thread, concurrently with other `RefSync` aligned to
-        // the same thread, so the reference count is only meaningful under the write lock:
-        // new references are only made from the map (under a lock) or from an existing `RefSync`.
-        let mut map = self.thread_specific.write().expect(ERR_POISONED_LOCK);
+    /// Gives up `instance` (the reference held by a `RefSync` being dropped) and, if it was the
+    /// last one besides the one in the thread-specific state, removes the thread-specific state
+    /// of `thread_id`, which drops that thread's instance of `T`.
+    fn release_thread_instance_ref(&self, thread_id: ThreadId, instance: Arc<T>) {
+        let last_references = {
+            // A `RefSync` may be dropped on any thread, concurrently with other `RefSync` aligned
+            // to the same thread, so the reference count is only meaningful under the write lock
+            // and our own reference must be released under it too: new references are only made
+            // from the map (under a lock) or from an existing `RefSync`.
+            let mut map = self.thread_specific.write().expect(ERR_POISONED_LOCK);
 
-        // Note that there are 2 references - the `RefSync` being dropped and the family state.
-        if Arc::strong_count(instance) != 2 {
-            // No - there is another RefSync, so we do not need to clean up.
-            return;
-        }
+            // Note that there are 2 references - the `RefSync` being dropped and the family state.
+            if Arc::strong_count(&instance) != 2 {
+                // No - there is another RefSync, so we do not need to clean up. Dropping our
+                // reference here cannot run `T`'s destructor because it is not the last one.
+                drop(instance);
+                return;
+            }
 
-        map.remove(&thread_id);
+            (map.remove(&thread_id), instance)
+        };
+
+        // The instance of `T` is dropped here, outside the lock, because its destructor is
+        // user code that may use this very family.
+        drop(last_references);
     }
 }
 
